@@ -64,7 +64,9 @@ func profiles() []gen.Config {
 	failing.Failing = true
 	shadow := base
 	shadow.Shadow = true
-	return []gen.Config{base, base, failing, shadow}
+	withTry := failing
+	withTry.Try = true
+	return []gen.Config{base, base, failing, shadow, withTry}
 }
 
 func TestCheck(t *testing.T) {
@@ -159,7 +161,11 @@ func classify(rec *ev.Rec, gp *gen.GenProgram, p *prog.P, want run.Outcome) {
 		classes++
 		rec.Class("loop+closure")
 	}
-	for _, k := range []string{"recursion-tail-deep", "shadow-outer-var", "forin-map", "if-init", "iota", "import"} {
+	if f["closure-escapes-block"] > 0 {
+		classes++
+		rec.Class("closure-escapes-block")
+	}
+	for _, k := range []string{"recursion-tail-deep", "shadow-outer-var", "forin-map", "if-init", "iota", "import", "try", "catch-ident"} {
 		if f[k] > 0 {
 			rec.Class(k)
 		}
